@@ -13,9 +13,12 @@ Proof. intros m o Hp H. destruct m, o; simpl in *; try discriminate; exact I. Qe
 
 Theorem corr_implies_no_crash : forall mi o matched, model_of mi o matched = Some true -> no_crash o.
 Proof.
-  intros mi o matched H. destruct mi as [|w p|w d|segs bl cand|t]; simpl in H.
+  intros mi o matched H. destruct mi as [|w p|w names row p|w d|segs bl cand|t]; simpl in H.
   - discriminate.
   - eapply agrees_no_crash; [apply find_path_total|exact H].
+  - destruct (agrees (find_rel false w names row p) o) as [b|] eqn:A; [|discriminate].
+    inversion H as [Hb]. apply andb_prop in Hb. destruct Hb as [-> _].
+    eapply agrees_no_crash; [apply find_rel_total|exact A].
   - eapply agrees_no_crash; [apply read_doc_total|exact H].
   - pose proof (path_matches_total segs bl cand) as T.
     destruct (path_matches false segs bl cand); [|congruence].
@@ -32,5 +35,5 @@ Proof.
   intros. unfold classify, classify_gen in H.
   destruct (spec_ok must_err o preserved) eqn:S.
   - split; auto. unfold spec_ok in S. destruct o; try discriminate; exact I.
-  - destruct (model_of mi o matched) as [[|]|]; discriminate.
+  - simpl in H. destruct (model_of mi o matched) as [[|]|]; discriminate.
 Qed.
